@@ -63,3 +63,17 @@ def hSync (j : Json) : Except String Json := do
   return jobj out
 
 end Drv
+
+namespace Drv
+open Fsm
+
+/-- C04: a faulty run (before → mid) followed by a fault-free run (mid → after) -/
+def hFault (j : Json) : Except String Json := do
+  let view ← parseView j
+  let before ← (← getArr j "before").toList.mapM parseSnap
+  let mid ← (← getArr j "mid").toList.mapM parseSnap
+  let after ← (← getArr j "after").toList.mapM parseSnap
+  let o := parseSyncOpt ((j.getObjVal? "opt").toOption.getD (jobj []))
+  return jobj (verdictJ "c01_mid" (specSync o before mid view) ++ verdictJ "c01_after" (specSync o mid after view))
+
+end Drv
